@@ -7,6 +7,7 @@ pub mod variant;
 pub mod d_codec;
 pub mod d_decode;
 pub mod d_sign;
+pub mod d_poly;
 pub mod d_replay;
 pub mod d_solve;
 pub mod d_moments;
